@@ -355,5 +355,94 @@ def configure_mid(lab):
     return plan(), d
 
 
-CORPUS = dict(norewind_section=norewind_section, configure_mid=configure_mid, count_norewind=count_norewind, declared=declared, double_stage=double_stage, failpause=failpause, defer_failpause=defer_failpause, count2=count2, scan2=scan2, scan3=scan3, rel_scan2=rel_scan2, list_scan2=list_scan2, grid2x2=grid2x2, adaptive=adaptive, tune=tune,
+def sparse(lab):
+    """Checkpoints at irregular spacing, some inside a non-rewindable region, and a tail without any checkpoint."""
+    from bluesky.utils import Msg
+
+    d = _std(lab)
+    m = d["m1"]
+
+    def plan():
+        yield Msg("open_run")
+        yield Msg("checkpoint")
+        yield Msg("null", None, 1)
+        yield Msg("checkpoint")
+        yield Msg("null", None, 2)
+        yield Msg("null", None, 3)
+        yield Msg("set", m, 1.0, group="g")
+        yield Msg("wait", None, group="g")
+        yield Msg("rewindable", None, False)
+        yield Msg("null", None, 4)
+        yield Msg("checkpoint")
+        yield Msg("null", None, 5)
+        yield Msg("rewindable", None, True)
+        yield Msg("null", None, 6)
+        yield Msg("checkpoint")
+        yield Msg("null", None, 7)
+        yield Msg("null", None, 8)
+        yield Msg("close_run")
+        yield Msg("null", None, 9)
+        return "sparse-done"
+
+    return plan(), d
+
+
+def two_runs_cleared(lab):
+    """Two consecutive runs; the first contains clear_checkpoint and no later checkpoint; cleanup via finalize."""
+    import bluesky.preprocessors as bpp
+    from bluesky.utils import Msg
+
+    d = _std(lab)
+    m = d["m1"]
+
+    def inner():
+        yield Msg("open_run")
+        yield Msg("checkpoint")
+        yield Msg("clear_checkpoint")
+        yield Msg("null", None, "r1")
+        yield Msg("close_run")
+        yield Msg("null", None, "between")
+        yield Msg("open_run")
+        yield Msg("null", None, "r2a")
+        yield Msg("set", m, 1.0, group="g")
+        yield Msg("wait", None, group="g")
+        yield Msg("null", None, "r2b")
+        yield Msg("close_run")
+
+    def final():
+        yield Msg("null", None, "cleanup")
+        yield Msg("checkpoint")
+        yield Msg("null", None, "cleanup2")
+
+    return bpp.finalize_wrapper(inner(), final()), d
+
+
+def late_wait(lab):
+    """trigger with a group, checkpoint, more messages, and only then the wait on the group."""
+    from bluesky.utils import Msg
+
+    d = _std(lab)
+    det, m = d["det"], d["m1"]
+
+    def plan():
+        yield Msg("open_run")
+        yield Msg("checkpoint")
+        yield Msg("trigger", det, group="late")
+        yield Msg("set", m, 1.0, group="late")
+        yield Msg("checkpoint")
+        yield Msg("null", None, "a")
+        yield Msg("null", None, "b")
+        yield Msg("wait", None, group="late")
+        yield Msg("checkpoint")
+        yield Msg("null", None, "c")
+        yield Msg("checkpoint")
+        yield Msg("create", name="primary")
+        yield Msg("read", det)
+        yield Msg("save")
+        yield Msg("close_run")
+
+    return plan(), d
+
+
+CORPUS = dict(sparse=sparse, two_runs_cleared=two_runs_cleared, late_wait=late_wait, norewind_section=norewind_section, configure_mid=configure_mid, count_norewind=count_norewind, declared=declared, double_stage=double_stage, failpause=failpause, defer_failpause=defer_failpause, count2=count2, scan2=scan2, scan3=scan3, rel_scan2=rel_scan2, list_scan2=list_scan2, grid2x2=grid2x2, adaptive=adaptive, tune=tune,
               fly1=fly1, bare=bare, cleanup=cleanup, staged_monitor=staged_monitor, nested_runs=nested_runs, flymon=flymon)
